@@ -61,7 +61,7 @@ theorem pesIter_la (cb : Bool) (sk la : Nat) (fs : FS) (win : Bytes) (h : LaOK l
   split
   · split
     · exact h
-    · rcases pesPacketFrame 3 cb cfg.corSkipsEmpty { fs with frame := { fs.frame with nDu := 0 } } (win.take la)
+    · rcases pesPacketFrame cfg 3 cb cfg.corSkipsEmpty { fs with frame := { fs.frame with nDu := 0 } } (win.take la)
         with ⟨a, b, r, c⟩
       cases r
       · exact Or.inl rfl
